@@ -578,6 +578,12 @@ fn run_step(
     res
 }
 
+static STEP_STARTED: std::sync::atomic::AtomicU64 = std::sync::atomic::AtomicU64::new(0);
+
+fn now_ms() -> u64 {
+    std::time::SystemTime::now().duration_since(std::time::UNIX_EPOCH).map(|d| d.as_millis() as u64).unwrap_or(0)
+}
+
 fn main() {
     let args: Vec<String> = std::env::args().collect();
     let mut jobs_path: Option<String> = None;
@@ -598,6 +604,17 @@ fn main() {
         i += 1;
     }
     std::panic::set_hook(Box::new(|_| {}));
+    // watchdog: a step of the code under test that does not come back (a hang is a verdict, like an abort) kills the
+    // process, so that the batch driver can attribute it to the job in progress and go on
+    let limit_s: u64 = std::env::var("VERIF_STEP_LIMIT_S").ok().and_then(|x| x.parse().ok()).unwrap_or(120);
+    std::thread::spawn(move || loop {
+        std::thread::sleep(std::time::Duration::from_millis(500));
+        let t0 = STEP_STARTED.load(std::sync::atomic::Ordering::SeqCst);
+        if t0 != 0 && now_ms().saturating_sub(t0) > limit_s * 1000 {
+            eprintln!("watchdog: a step ran for more than {limit_s} s");
+            std::process::abort();
+        }
+    });
     let mut tout = TraceOut {
         file: trace_path.map(|p| std::io::BufWriter::new(std::fs::File::create(p).unwrap())),
     };
@@ -632,6 +649,7 @@ fn main() {
             Ok(mut t) => {
                 if let Some(steps) = job.get("steps").and_then(|s| s.as_array()) {
                     for (k, step) in steps.iter().enumerate() {
+                        STEP_STARTED.store(now_ms(), std::sync::atomic::Ordering::SeqCst);
                         let r = std::panic::catch_unwind(std::panic::AssertUnwindSafe(|| {
                             run_step(&mut t, step, &job, &id, k, trace_on, &mut tout)
                         }));
@@ -651,6 +669,7 @@ fn main() {
                 }
             }
         }
+        STEP_STARTED.store(0, std::sync::atomic::Ordering::SeqCst);
         tera::verif::set_optimize(true);
         writeln!(out, "{}", json!({"id": id, "r": results})).unwrap();
         // flushed per job so that a crash (abort, stack overflow) can be attributed to the job in progress
